@@ -1,10 +1,174 @@
+"""C14, second half: security.TwistedWrapper.process on the three channels, against
+Model/Handshake.lean.  `_PGP` is a table-driven fake (a packet verifies iff it starts with b'OK',
+decryption strips the marker); the challenge text is made deterministic by replacing the
+`datetime` and `random` names of dawgie.security."""
+import struct
+import types
+
+from . import common
+
+CHALLENGE = 'timestamp: T0\nunique id: 0.5'
+
+
+class FakePGP:
+    @staticmethod
+    def verify(data):
+        return types.SimpleNamespace(valid=bytes(data).startswith(b'OK'))
+
+    @staticmethod
+    def decrypt(data):
+        return types.SimpleNamespace(data=bytes(data)[2:])
+
+
+def install(ch):
+    sec = ch.security
+    ch.req_func['func'] = ch.req_func['acquire']  # keep the db connection open across messages
+    sec._PGP = FakePGP
+    sec.datetime = types.SimpleNamespace(
+        datetime=types.SimpleNamespace(now=lambda tz=None: 'T0'), UTC=None
+    )
+    sec.random = types.SimpleNamespace(random=lambda: 0.5)
+
+
+def be4(n):
+    return struct.pack('>I', n)
+
+
+def frame(m):
+    return be4(len(m)) + m
+
+
+KINDS = ['valid', 'valid', 'valid', 'bad-first-word', 'bad-id-signature', 'bad-second-word',
+         'bad-echo', 'bad-reply-signature', 'truncated', 'empty-id', 'empty-reply']
+
+
+def gen_stream(r, kind):
+    hid = b'OK' + bytes(r.choice(b'abcdefgh') for _ in range(r.randrange(0, 6)))
+    reply = b'OK' + CHALLENGE.encode()
+    w1, w3 = 4, 4
+    if kind == 'bad-first-word':
+        w1 = r.choice([0, 3, 5, 1 << 20])
+    if kind == 'bad-id-signature':
+        hid = b'NO' + hid[2:]
+    if kind == 'bad-second-word':
+        w3 = r.choice([0, 3, 5, 77])
+    if kind == 'bad-echo':
+        reply = b'OK' + CHALLENGE.encode()[:-1] + b'6'
+    if kind == 'bad-reply-signature':
+        reply = b'KO' + CHALLENGE.encode()
+    if kind == 'empty-id':
+        hid = b''
+    if kind == 'empty-reply':
+        reply = b''
+    tail_msgs = [bytes(r.randrange(256) for _ in range(r.choice([0, 1, 2, 5, 9])))
+                 for _ in range(r.choice([0, 1, 2, 3]))]
+    tail = b''.join(frame(m) for m in tail_msgs)
+    if r.random() < 0.3 and tail:
+        tail = tail[: r.randrange(len(tail))]  # incomplete last frame
+    stream = be4(w1) + be4(len(hid)) + hid + be4(w3) + be4(len(reply)) + reply + tail
+    if kind == 'truncated':
+        stream = stream[: r.randrange(len(stream) - len(tail))] if len(stream) > len(tail) else stream
+    return stream, tail
+
+
+def deliver(ch, kind, chunks):
+    """feed the chunks as a Twisted transport would: nothing after loseConnection"""
+    proto, got = {'farm': ch.hand, 'db': ch.dbworker, 'log': ch.logsink}[kind](('10.0.0.1', 7))
+    for c in chunks:
+        if proto.transport.closed:
+            break
+        proto.dataReceived(c)
+    return {'closed': proto.transport.closed > 0, 'sent': len(proto.transport.written),
+            'delivered': list(got)}
+
+
+def complete_frames(tail):
+    out, i = [], 0
+    while i + 4 <= len(tail):
+        n = struct.unpack('>I', tail[i:i + 4])[0]
+        if i + 4 + n > len(tail):
+            break
+        out.append(tail[i + 4:i + 4 + n])
+        i += 4 + n
+    return out
+
+
+def one_case(ch, res, r, kind, stream, tail, chunks, lines, pending):
+    impl = {}
+    for channel in ('farm', 'db', 'log'):
+        got = deliver(ch, channel, chunks)
+        whole = deliver(ch, channel, [stream])
+        impl[channel] = got
+        rep = {'kind': 'hs', 'channel': channel, 'case': kind, 'chunks': [list(c) for c in chunks]}
+        # monitor: the property on the implementation
+        if kind != 'valid' and got['delivered']:
+            res.hit(f'C14:hs-gate:{channel}',
+                    f'{channel}: payload processed although the handshake is {kind}', rep)
+        if kind not in ('valid', 'truncated') and not got['closed']:
+            res.hit(f'C14:hs-fail-open:{channel}',
+                    f'{channel}: failed handshake ({kind}) did not close the connection', rep)
+        if kind == 'valid':
+            want = complete_frames(tail)
+            if got['delivered'] != want or got['closed']:
+                res.hit(f'C14:hs-tail:{channel}',
+                        f'{channel}: bytes after the final handshake packet not delivered once, in order', rep)
+        if (got['delivered'], got['closed']) != (whole['delivered'], whole['closed']):
+            res.hit(f'C14:hs-chunking:{channel}',
+                    f'{channel}: chunked handshake stream behaves differently from whole delivery', rep)
+    lines.append(common.sx(['hs', 'hs', CHALLENGE.encode()] + [bytes(c) for c in chunks])
+                 .replace('(hs hs ', '(hs ', 1))
+    pending.append(('hs', chunks, impl))
+    res.case(('hs', kind, tuple(chunks)), nontrivial=len(chunks) > 1,
+             sample={'handshake': kind, 'chunks': [c.hex() for c in chunks],
+                     'delivered': [m.hex() for m in impl['farm']['delivered']]})
+    res.count('hs:' + kind)
+
+
 def run(ctx, res, ch, r, lines, pending):
-    return
+    from .c14 import all_chunkings, random_chunking
+
+    install(ch)
+    thorough = ctx['tier'] == 'thorough' or ctx['escalate']
+    n = 600 if thorough else 120
+    for _ in range(n):
+        kind = r.choice(KINDS)
+        stream, tail = gen_stream(r, kind)
+        one_case(ch, res, r, kind, stream, tail, random_chunking(r, stream), lines, pending)
+    if thorough:
+        # every single split position of one valid and one invalid stream
+        for kind in ('valid', 'bad-echo', 'bad-id-signature'):
+            stream, tail = gen_stream(r, kind)
+            for i in range(len(stream) + 1):
+                one_case(ch, res, r, kind, stream, tail, [stream[:i], stream[i:]], lines, pending)
+            for i in range(0, len(stream), 3):
+                for j in range(i, len(stream), 5):
+                    one_case(ch, res, r, kind, stream, tail,
+                             [stream[:i], stream[i:j], stream[j:]], lines, pending)
 
 
 def compare(res, chunks, impl, o):
-    return
+    m = common.parse_sx(o)
+    model = {'closed': m[0] == 'T', 'sent': int(m[2]),
+             'delivered': [bytes(int(b) for b in x) for x in m[3]]}
+    if m[4] == 'T':
+        res.diff('Handshake model reached a struct error', {'chunks': [list(c) for c in chunks]}, o, None)
+    for channel, got in impl.items():
+        if got != model:
+            res.diff(f'Handshake.feedAllT vs TwistedWrapper.process on {channel}',
+                     {'chunks': [list(c) for c in chunks]},
+                     {k: (v if k != 'delivered' else [list(x) for x in v]) for k, v in model.items()},
+                     {k: (v if k != 'delivered' else [list(x) for x in v]) for k, v in got.items()})
 
 
 def replay(inp, res, ch):
-    return
+    install(ch)
+    chunks = [bytes(c) for c in inp['chunks']]
+    r = common.rng(0, 'replay')
+    stream = b''.join(chunks)
+    # recover the tail for the 'valid' oracle: everything after the reply packet
+    tail = b''
+    if inp['case'] == 'valid':
+        i = 8 + struct.unpack('>I', stream[4:8])[0]
+        i = i + 8 + struct.unpack('>I', stream[i + 4:i + 8])[0]
+        tail = stream[i:]
+    one_case(ch, res, r, inp['case'], stream, tail, chunks, [], [])
